@@ -185,13 +185,17 @@ def i2osp_instantiations():
     return sorted(found)
 
 
-def check_anchors(meta):
+def check_anchors(meta, body=False):
+    """anchors that differ from verus/anchors.json.  `body:<file>::<Trait>::<fn>` anchors (functions whose prelude contract was written for
+    one exact body text) are reported separately (body=True): losing one makes that function 'refused', not the whole run undecided"""
     exp_path = os.path.join(VERIF, "verus", "anchors.json")
     if not os.path.exists(exp_path):
         return []
     exp = json.load(open(exp_path))
     lost = []
     for k, v in exp.items():
+        if k.startswith("body:") != body:
+            continue
         got = meta["anchors"].get(k)
         if got != v:
             lost.append(k)
@@ -255,6 +259,17 @@ def assemble(vacuity=False, only_files=None, extra_theorems=True, extracted=None
     A.refused = {k: v for k, v in (meta.get("refused_fns") or {}).items()}
     for k, v in force_external.items():
         A.refused.setdefault(k, []).append(v)
+    # functions that stay prelude contracts and are anchored by their body text
+    exp_path = os.path.join(VERIF, "verus", "anchors.json")
+    body_keys = [k[5:] for k in (json.load(open(exp_path)) if os.path.exists(exp_path) else {}) if k.startswith("body:")]
+    lost_bodies = [k[5:] for k in check_anchors(meta, body=True)]
+    for k in body_keys:
+        if k in lost_bodies:
+            A.refused.setdefault(k, []).append("body differs from the one its prelude contract was written for (anchor " + k + ")")
+            A.uncontracted.append(k)
+        else:
+            A.contracted.append(k)
+            A.external.append(k)
     drop_contract = dict(drop_contract or {})
     for k, v in drop_contract.items():
         A.refused.setdefault(k, []).append("contract no longer type-checks against the function's signature / types: " + v[:300])
